@@ -380,6 +380,7 @@ func checkC09(c *Check) {
 		c.require(ok, "C08.2 notification-sent", "fsm.handleNotificationInErr", "out=true sent", p.Pos(h.Pos()),
 			"an outgoing notificationError found with errors.As is passed to sendNotification on every path")
 	}
+	c.readerHandoff()
 	c.transitionRelation("C09.5 transition-relation")
 	c.cleanupOnExit("C09.6 cleanup-on-exit")
 	_ = openConfirm
